@@ -54,9 +54,49 @@ def _narrow_ops(c):
     return ops
 
 
+def _xref_ops(c):
+    """a narrowed subject token is exchanged by ANOTHER client for a refresh token (an exchange grant of its own), which that client then
+    refreshes — without scope, with the original grant's full scope, with a scope outside everything"""
+    rng = random.Random(c["seed"])
+    cl, other = c["client"], c["other"]
+    red = f"https://{cl}.example.com/cb"
+    req = ["openid", "offline_access", "email", "profile", "phone"]
+    R = prov.Runner(c["oidc"], False, usage="exchange")
+    ops = []
+
+    def do(o):
+        ops.append(o)
+        return R.op(o)
+    do(["authorize", "diana", cl, req, red])
+    do(["tokenParse", cl, 1, red])
+    r = do(["tokenProcess", 0])
+    if r[0] != "tokens":
+        return ops
+    at, rt, granted = r[1], r[2], r[4]
+    narrow = ["offline_access", "openid"]
+    r2 = do(["refresh", cl, rt, narrow])
+    subj = r2[1] if r2[0] == "tokens" and r2[1] >= 0 else at
+    styp = "access"
+    if rng.random() < 0.4 and r2[0] == "tokens" and r2[2] >= 0:
+        subj, styp = r2[2], "refresh"
+    x = do(["exchange", other, subj, styp, "refresh", rng.choice([None, narrow])])
+    xt = x[1] if x[0] == "exchanged" else -1
+    for sc in (None, granted, ["email"], ["foo"]):
+        y = do(["refresh", other, xt, sc])
+        if y[0] == "tokens" and y[2] >= 0:
+            xt = y[2]
+    for t in sorted(R.val):
+        do(["introspect", other, t])
+    return ops
+
+
 def cases(rng, tier):
     n = {"quick": 60, "thorough": 900, "search": 600}[tier]
     out = []
+    for oidc in (True, False):
+        for cl, other in (("client_1", "client_2"), ("client_2", "client_3"), ("client_3", "client_1")):
+            for _ in range({"quick": 1, "thorough": 4, "search": 3}[tier]):
+                out.append({"t": "xref", "oidc": oidc, "jwt": False, "usage": "exchange", "client": cl, "other": other, "seed": rng.getrandbits(32)})
     for oidc in (True, False):
         for jwt in (True, False):
             for cl in ("client_1", "client_2", "client_3"):
@@ -145,6 +185,8 @@ def _ops_for(c):
         return c["ops"]
     if c["t"] == "narrow":
         return _narrow_ops(c)
+    if c["t"] == "xref":
+        return _xref_ops(c)
     ops, _ = prov.gen_adaptive(random.Random(c["gen_seed"]), c["n"], oidc=c["oidc"], jwt=c["jwt"], usage=c.get("usage"),
                                weights=XW if c.get("usage") == "exchange" else W)
     return ops
